@@ -16,6 +16,7 @@ UNITS = {
     "u15_colids": {"verus": "specs/u15_colids.vt.rs"},
     "u16_autocommit": {"verus": "specs/u16_autocommit.vt.rs"},
     "u18_actor_table": {"verus": "specs/u18_actor_table.vt.rs"},
+    "u19_import": {"verus": "specs/u19_import.vt.rs"},
 }
 CHUNK = "rust/automerge/src/storage/chunk.rs"
 EXID = "rust/automerge/src/exid.rs"
@@ -108,7 +109,9 @@ HARNESSES = {
     "u08_width_single_scalar": {"crate": "automerge", "file": TYPES, "fn": "TextEncoding::width", "mode": "complete",
                                 "bound": "every `char` as a one-scalar string, encodings UTF-8 / code point / UTF-16 (loops bounded by the 4-byte encoding); grapheme clusters not covered"},
     "u17_from_raw_string_valid": {"crate": "automerge", "file": "rust/automerge/src/op_set2/types.rs", "fn": "ScalarValue::from_raw (string arm)", "mode": "bounded",
-                                  "bound": "all string values of <= 4 raw bytes, any declared metadata length"},
+                                  "bound": "all string values of <= 3 raw bytes, any declared metadata length"},
+    "u17_from_raw_string_valid_t": {"crate": "automerge", "file": "rust/automerge/src/op_set2/types.rs", "fn": "ScalarValue::from_raw (string arm)", "mode": "bounded",
+                                    "bound": "all string values of <= 4 raw bytes, any declared metadata length", "tier": "thorough"},
     "u15_raw_read_bytes": {"crate": "automerge", "file": "rust/automerge/src/columnar/encoding/raw.rs", "fn": "RawDecoder::read_bytes", "mode": "bounded",
                            "bound": "8-byte buffer, every offset inside it, every length < 2^60 (the range of a value-metadata length)"},
     # ---- U12 range normalisation
@@ -219,13 +222,14 @@ PROPERTIES.update({
     },
     "C37": {
         "level": "proof",
-        "verus": [("u04_ids", ["exid_to_opid", "op_cursor_to_opid", "new", "get_actor_safe"]), ("u16_autocommit", ["ensure_transaction_open", "commit_with", "empty_change", "ensure_transaction_closed"])],
+        "verus": [("u04_ids", ["exid_to_opid", "op_cursor_to_opid", "new", "get_actor_safe"]), ("u16_autocommit", ["ensure_transaction_open", "commit_with", "empty_change", "ensure_transaction_closed"]), ("u19_import", "*")],
         "kani": ["u04_opid_new", "u12_normalize_range", "u08_width_single_scalar"],
         "not_under_contract": ["every other public entry point", "the ~100 internal OpId::new call sites", "hydrate::Value::apply_patches"],
         "assumptions": ["a document has at most u32::MAX actors"],
         "explanation": "For the id/cursor argument conversions and list-range normalisation only: normalize_range is proved (Kani, complete over all pairs of bounds) never to panic and to return exactly "
                        "the caller's range; OpId::new's two unwrap()s become its precondition (verified on its real body), and Verus proves every call from exid_to_opid and "
                        "op_cursor_to_opid establishes it for EVERY ExId / cursor value a caller can construct or decode. "
+                       "U19: Automerge::import_obj is total on every &str (no unwrap on hex / integer conversion, string slices on char boundaries, table index in range; the str primitives are trusted wrappers). "
                        "U16: AutoCommit's `.unwrap()` of the just-opened transaction and the `assert!` in PatchLog::begin_transaction (no speculative actor pending) cannot fire from ensure_transaction_open / commit_with / empty_change.",
     },
 })
@@ -234,7 +238,7 @@ PROPERTIES.update({
     "C15": {
         "level": "proof",
         "verus": [("u02_parse", "*"), ("u01_bloom", ["parse", "get_probes", "contains_hash", "add_hash", "set_bit"]), ("u04_ids", ["exid_to_opid", "op_cursor_to_opid", "new"]),
-                  ("u04c_codecs", ["try_from", "parse_0"]), ("u06v_hexane_str", "*"), ("u15_colids", ["try_next", "try_load", "new", "root", "from"])],
+                  ("u04c_codecs", ["try_from", "parse_0"]), ("u06v_hexane_str", "*"), ("u15_colids", ["try_next", "try_load", "new", "root", "from"]), ("u19_import", "*")],
         "kani": ["u15_try_load_total", "u15_raw_read_bytes", "u17_from_raw_string_valid", "u02k_length_prefixed_total", "u02k_apply_n_total", "u06_codec_reads_agree", "u01_parse_wf_quick", "u01_parse_wf_thorough", "u01_query_total", "u03_header_parse_q", "u03_header_parse_t", "u03_chunktype_codes",
                  "u04_exid_try_from_total_q", "u04_exid_try_from_total_t", "u04_cursor_from_str_total_q",
                  "u05_flags_parse_bytes",
@@ -300,7 +304,7 @@ PROPERTIES.update({
     "C39": {
         "level": "proof",
         "verus": [("u02_parse", ["utf_8", "take_n"]), ("u06v_hexane_str", "*")],
-        "kani": ["u06_codec_reads_agree", "u06_string_unpack_q", "u06_string_unpack_t", "u06_rle_segment_utf8", "u17_from_raw_string_valid"],
+        "kani": ["u06_codec_reads_agree", "u06_string_unpack_q", "u06_string_unpack_t", "u06_rle_segment_utf8", "u17_from_raw_string_valid", "u17_from_raw_string_valid_t"],
         "not_under_contract": ["the global invariant 'every unchecked unpack is dominated by a checked pass over the same bytes' (hexane columns, bundles)", "BundleStorage::verify", "Column::load validation walk", "change_graph / columns.rs string reads"],
         "trusted": ["std::str::from_utf8 / String::from_utf8 validators (uninterpreted `valid_utf8` in the Verus unit)"],
         "explanation": "Verus proves parse::utf_8 only ever builds a String from bytes the std validator accepted (any length); on the real hexane <String as RleValue>::{try_unpack, unpack, value_len} Verus proves, for buffers of ANY length "
